@@ -115,6 +115,7 @@ Definition hmat_addition (md : mode) (s : tbl) (o : sx) : option addition :=
   | SL [SA 2; SA lt; SA dt; SA mts; SA unit; SA ni; SA nt; SL bs] =>
       do sl0 <- sysloc_new md lt dt mts unit ni nt;
       do sl <- sysloc_builders sl0 bs;
+      do _ <- assert (sysloc_len sl <? U32);                        (* assert!(self.len() <= u32::MAX as usize) in the serialiser *)
       Some (hmat_add (sysloc_len sl) (sysloc_bytes sl))
   | SL [SA 3; SA pd; SA size; SA total; SA level; SA assoc; SA policy; SA line; SL hs] =>
       do handles <- sx_nums hs;
